@@ -117,6 +117,7 @@ type B struct {
 	Work    *big.Int
 	Diff    *big.Int
 	State   consensus.State // state after the block (header-applied at least); zero if !HdrOk
+	Full    consensus.State // the full post-block state from the twin (valid blocks only)
 	Corrupt string          // "" for generated-valid blocks, else the corruption kind
 	Kinds   []string        // transaction kinds carried
 }
@@ -230,6 +231,9 @@ func (t *Tree) add(parent int, blk types.Block, corrupt string, kinds []string) 
 				ts, _ = tw.Store.AncestorTimestamp(blk.ParentID)
 				if !b.Future {
 					b.BodyOk = tw.CM.AddBlocks([]types.Block{blk}) == nil
+					if b.BodyOk {
+						b.Full = tw.CM.TipState()
+					}
 				}
 			}
 			b.State = consensus.ApplyHeader(ps, blk.Header(), ts)
